@@ -114,8 +114,28 @@ pub struct BuildLog {
 pub fn builder_from_spec(spec: &GraphSpec) -> (FnGraphBuilder<TFn>, BuildLog) {
     let mut b = FnGraphBuilder::<TFn>::new();
     let mut fn_ids: Vec<FnId> = Vec::with_capacity(spec.n);
-    for i in 0..spec.n {
-        fn_ids.push(b.add_fn(TFn { idx: i, reads: spec.reads[i], writes: spec.writes[i], runs: 0 }));
+    let mk = |i: usize| TFn { idx: i, reads: spec.reads[i], writes: spec.writes[i], runs: 0 };
+    // Half of the specs insert their functions through a mix of add_fn and add_fns (groups of 2..4):
+    // the ids returned by a group call on a builder that already holds functions are part of what
+    // every later edge call and oracle relies on.
+    let hf = crate::runner::hash_of(spec);
+    if (hf >> 5) & 1 == 1 && spec.n <= 1024 {
+        let mut rng = crate::choice::Rng::new(hf ^ 0x5eed);
+        let mut i = 0;
+        while i < spec.n {
+            let k = rng.range(1, 4).min(spec.n - i);
+            match k {
+                1 => fn_ids.push(b.add_fn(mk(i))),
+                2 => fn_ids.extend(b.add_fns([mk(i), mk(i + 1)])),
+                3 => fn_ids.extend(b.add_fns([mk(i), mk(i + 1), mk(i + 2)])),
+                _ => fn_ids.extend(b.add_fns([mk(i), mk(i + 1), mk(i + 2), mk(i + 3)])),
+            }
+            i += k;
+        }
+    } else {
+        for i in 0..spec.n {
+            fn_ids.push(b.add_fn(mk(i)));
+        }
     }
     let mut results = Vec::with_capacity(spec.calls.len());
     // Roughly a third of the specs are replayed through the batch forms (add_*_edges) where that
